@@ -73,6 +73,9 @@ func N(quick, thorough int) int {
 	return n
 }
 
+// Hash is the FNV-1a hash used for case signatures.
+func Hash(s string) uint64 { return h64(s) }
+
 func h64(s string) uint64 {
 	h := fnv.New64a()
 	h.Write([]byte(s))
